@@ -563,6 +563,7 @@ func wireLeg(c *core.Ctx, preds []predCase, predSrcRows [][]octosql.Value) {
 		}
 		c.Count("wire/predicates_ok", 1)
 	}
+	negotiationCheck(c, env)
 	// evidence from the plugin's own call log
 	if data, err := os.ReadFile(env.logf); err == nil {
 		mat, withPred := 0, 0
